@@ -92,36 +92,77 @@ func coqWorld(p *pipeline.Pipeline) (string, map[string]string) {
 				ings = append(ings, coqIngress(x))
 			}
 		case *api.Service:
-			var ports []string
-			for _, sp := range x.Spec.Ports {
-				ports = append(ports, fmt.Sprintf("{| sp_name := %s; sp_port := %s; sp_target := %s |}",
-					hx.Str(sp.Name), hx.Z(int64(sp.Port)), hx.Str(sp.TargetPort.String())))
-			}
-			svcs = append(svcs, fmt.Sprintf("{| s_ns := %s; s_name := %s; s_ports := %s |}", hx.Str(x.Namespace), hx.Str(x.Name), hx.List(ports)))
+			svcs = append(svcs, coqService(x))
 		case *api.Endpoints:
-			var subs []string
-			for _, ss := range x.Subsets {
-				for _, pt := range ss.Ports {
-					if pt.Protocol != api.ProtocolTCP {
-						continue
-					}
-					var ips []string
-					for _, a := range ss.Addresses {
-						ips = append(ips, hx.Str(a.IP))
-					}
-					subs = append(subs, fmt.Sprintf("{| ss_name := %s; ss_port := %s; ss_ready := %s |}", hx.Str(pt.Name), hx.Z(int64(pt.Port)), hx.List(ips)))
-				}
-			}
-			eps = append(eps, hx.Tuple(hx.Str(x.Namespace+"/"+x.Name), hx.List(subs)))
+			eps = append(eps, coqEndpoints(x))
 		case *api.Secret:
 			// the content hash the real cache computes; no tracking (nil track list)
 			if f, err := p.Cache.GetTLSSecretPath(x.Namespace, x.Name, nil); err == nil {
-				secs = append(secs, hx.Tuple(hx.Str(x.Namespace+"/"+x.Name), hx.Str(f.SHA1Hash)))
-				labels[contentHash(x.Data[api.TLSCertKey], x.Data[api.TLSPrivateKeyKey])] = f.SHA1Hash
+				// the label is a prefix of the SHA1 (shorter Coq terms)
+				secs = append(secs, hx.Tuple(hx.Str(x.Namespace+"/"+x.Name), hx.Str(short12(f.SHA1Hash))))
+				labels[contentHash(x.Data[api.TLSCertKey], x.Data[api.TLSPrivateKeyKey])] = short12(f.SHA1Hash)
 			}
 		}
 	}
-	return fmt.Sprintf("{| w_ings := %s; w_svcs := %s; w_eps := %s; w_secrets := %s |}", hx.List(ings), hx.List(svcs), hx.List(eps), hx.List(secs)), labels
+	sv, ep := hx.List(svcs), hx.List(eps)
+	if sv == baseSvcs {
+		sv = "base_svcs"
+	}
+	if ep == baseEps {
+		ep = "base_eps"
+	}
+	return fmt.Sprintf("{| w_ings := %s; w_svcs := %s; w_eps := %s; w_secrets := %s |}", hx.List(ings), sv, ep, hx.List(secs)), labels
+}
+
+// the services and endpoints every history starts with, printed once per cases file
+var baseSvcs, baseEps string
+
+func casePrelude() string {
+	dir := workdir + "/prelude"
+	p := pipeline.New(pipeline.Options{Dir: dir, WatchWithoutClass: true})
+	defer p.Close()
+	if err := p.Apply(toBatch(nil, true)); err != nil {
+		panic(err)
+	}
+	var svcs, eps []string
+	objs := p.Objects()
+	sort.Slice(objs, func(i, j int) bool { return p.Key(objs[i]) < p.Key(objs[j]) })
+	for _, o := range objs {
+		switch x := o.(type) {
+		case *api.Service:
+			svcs = append(svcs, coqService(x))
+		case *api.Endpoints:
+			eps = append(eps, coqEndpoints(x))
+		}
+	}
+	baseSvcs, baseEps = hx.List(svcs), hx.List(eps)
+	return "From HI Require Import Corr.Corr_C15.\nDefinition base_svcs : list service := " + baseSvcs + ".\nDefinition base_eps : list (string * list subset) := " + baseEps + "."
+}
+
+func coqService(x *api.Service) string {
+	var ports []string
+	for _, sp := range x.Spec.Ports {
+		ports = append(ports, fmt.Sprintf("{| sp_name := %s; sp_port := %s; sp_target := %s |}",
+			hx.Str(sp.Name), hx.Z(int64(sp.Port)), hx.Str(sp.TargetPort.String())))
+	}
+	return fmt.Sprintf("{| s_ns := %s; s_name := %s; s_ports := %s |}", hx.Str(x.Namespace), hx.Str(x.Name), hx.List(ports))
+}
+
+func coqEndpoints(x *api.Endpoints) string {
+	var subs []string
+	for _, ss := range x.Subsets {
+		for _, pt := range ss.Ports {
+			if pt.Protocol != api.ProtocolTCP {
+				continue
+			}
+			var ips []string
+			for _, a := range ss.Addresses {
+				ips = append(ips, hx.Str(a.IP))
+			}
+			subs = append(subs, fmt.Sprintf("{| ss_name := %s; ss_port := %s; ss_ready := %s |}", hx.Str(pt.Name), hx.Z(int64(pt.Port)), hx.List(ips)))
+		}
+	}
+	return hx.Tuple(hx.Str(x.Namespace+"/"+x.Name), hx.List(subs))
 }
 
 var kindName = map[convtypes.ResourceType]string{
@@ -165,6 +206,12 @@ func coqStep(p *pipeline.Pipeline, o *stepObs, first bool) (string, bool) {
 		return "", false
 	}
 	run := p.Last.Runs[0]
+	for _, o := range p.Objects() {
+		// the feature subset of Model/Conv.v: no annotations, no default backend
+		if ing, ok := o.(*networking.Ingress); ok && (len(ing.Annotations) > 0 || ing.Spec.DefaultBackend != nil) {
+			return "", false
+		}
+	}
 	w, labels := coqWorld(p)
 	label := func(h string) string {
 		if l, ok := labels[h]; ok {
@@ -243,6 +290,13 @@ func coqDyn(old, cur map[string]*hatypes.Host, reload bool, ex []fakehaproxy.Exc
 	}
 	term := fmt.Sprintf("{| kd_pairs := %s; kd_structural := %s; kd_reload := %s; kd_files := %s |}", hx.List(pairs), hx.Bool(structural), hx.Bool(reload), hx.List(files))
 	return term, map[string]interface{}{"changed_pairs": js, "structural": structural, "reload": reload, "set_ssl_cert": len(files)}
+}
+
+func short12(s string) string {
+	if len(s) > 12 {
+		return s[:12]
+	}
+	return s
 }
 
 func short(s string) string {
